@@ -65,7 +65,9 @@ def _call(modname, funcname, arg):
                         v['case'] = dict(v['case'], _process_history=json.loads(blob))
         _PROCESS_LOG.append((funcname, arg))
         return ('ok', res)
-    except BaseException:
+    except BaseException as e:
+        if type(e).__name__ == 'ConstructionFailed':
+            return ('ok', construction_violation(e))
         return ('err', traceback.format_exc())
 
 
@@ -187,6 +189,14 @@ def _s(x):
         return None
     s = x if isinstance(x, str) else repr(x)
     return s if len(s) < 2000 else s[:2000] + '...'
+
+
+def construction_violation(e):
+    opts = {k: (v if isinstance(v, (int, float, str, bool)) or v is None else repr(v)) for k, v in e.options.items()}
+    basis = 'custom-basis' if e.cfg.get('basis') else 'default-basis'
+    v = violation(f'construct:{type(e.err).__name__}:{basis}', f'the admissible configuration {e.cfg} {opts or ""} cannot be constructed: {type(e.err).__name__}: {e.err}',
+                  {'construct': e.cfg, 'options': opts}, 'an Algebra', repr(e.err))
+    return {'evals': 1, 'nontrivial': 0, 'violations': [v], 'samples': [], 'skipped': 0, 'extra': {}}
 
 
 def load_known(pid):
@@ -327,7 +337,14 @@ def do_replay(pid, mod, path):
         rec = json.load(f)
     case = rec['case']
     hist = case.pop('_process_history', None) if isinstance(case, dict) else None
-    if os.environ.get('VERIF_REPLAY_MODE') == 'history' and hist:
+    if isinstance(case, dict) and 'construct' in case:
+        from .oracle import make_algebra, ConstructionFailed
+        try:
+            make_algebra(case['construct'])      # options with non-JSON values (wrappers, classes) are not needed to reproduce
+            res = {'violations': []}
+        except ConstructionFailed as e:
+            res = construction_violation(e)
+    elif os.environ.get('VERIF_REPLAY_MODE') == 'history' and hist:
         # pristine process: replay what the worker process had executed before, then the failing work item
         res = {'violations': []}
         for fname, arg in hist:
